@@ -26,8 +26,8 @@ HEAP = "2g"          # the models are small; the machine is shared
 
 # ----------------------------------------------------------------------------- construction
 def make_ns(dendropy, case):
-    """namespace whose members have the codes case['M'] (ascending); the other accession
-    indices below max(M) + trail were added and removed again"""
+    """namespace whose members get the accession codes case['M'] (ascending) when created; the other
+    accession indices below max(M) + trail were added and removed again.  Not yet sorted / reversed."""
     M = case["M"]
     total = max(M) + case.get("trail", 0)
     holes = [i for i in range(total) if (i + 1) not in M]
@@ -37,7 +37,22 @@ def make_ns(dendropy, case):
         perm = list(range(len(M)))
         r.shuffle(perm)
         labels = ["x%02d" % p for p in perm]
-    return build.make_namespace(dendropy, len(M), holes=holes, order=case.get("order"), labels=labels)
+    return build.make_namespace(dendropy, len(M), holes=holes, order=None, labels=labels)
+
+
+def members(ns):
+    """codes (accession index + 1, as the namespace reports it now) of the members, ascending;
+    does not touch the namespace's bitmask cache"""
+    return sorted(int(ns.accession_index(t)) + 1 for t in ns)
+
+
+def namespace_event(ns):
+    """what the namespace answers for every member at the end of the history"""
+    acc, bits = [], []
+    for t in ns:
+        acc.append(int(ns.accession_index(t)) + 1)
+        bits.append(C(ns.taxon_bitmask(t)))
+    return {"action": "Namespace", "acc": acc, "bits": bits}
 
 
 def rooted_value(v):
@@ -145,9 +160,19 @@ def run_case(case):
     import dendropy
     rng = random.Random(case["seed"])
     ns, taxa = make_ns(dendropy, case)
-    M = list(case["M"])
     evs = []
     rooted = rooted_value(case["rooted"])
+    # namespace history: (bitmasks handed out for part of the members by encoding a tree with an
+    # incomplete leaf set)? -> sort / reverse -> everything else
+    pre = case.get("pre_taxa")
+    if pre:
+        ptree = build.build_tree(dendropy, [None, None, None, [[None, i, None, []] for i in pre]], ns, taxa, rooted=rooted)
+        call_encode(ptree, {"su": True, "cb": True}, evs, members(ns))
+    if case.get("order") == "reverse":
+        ns.reverse()
+    elif case.get("order") == "sort":
+        ns.sort()
+    M = members(ns)
     tree = build.build_tree(dendropy, case["nested"], ns, taxa, rooted=rooted)
     g0 = g1 = order = None
     for step in case["steps"]:
@@ -156,6 +181,7 @@ def run_case(case):
         else:
             g0, g1, order = call_encode(tree, step, evs, M)
     if evs[-1]["raised"]:
+        evs.append(namespace_event(ns))
         return evs
     ga0 = g0
     rt = bool(tree.is_rooted)
@@ -191,6 +217,7 @@ def run_case(case):
         if case.get("log_mate", True) or evb[-1]["raised"]:
             evs.extend(evb)         # (in model cases the partner is a case of its own)
         if evb[-1]["raised"]:
+            evs.append(namespace_event(ns))
             return evs
         ssb = [C(b.split_bitmask) for b in treeb.bipartition_encoding]
         evs.append({"action": "Pair", "ga": ga0, "gb": gb0, "ssa": ssa, "ssb": ssb})
@@ -223,6 +250,7 @@ def run_case(case):
                 ev[k2] = []
             ev["compat"], ev["nested"] = [], []
         evs.append(ev)
+    evs.append(namespace_event(ns))
     return evs
 
 
@@ -246,6 +274,14 @@ def steps_for(k, rng):
     if h == 4:
         return [dict(main, via="update")]
     return [{"op": "encode", "su": False, "cb": False, "ss": True}, main]
+
+
+def pre_taxa(n, k, rng):
+    """taxon indices of the tree with an incomplete leaf set that is encoded before the namespace is
+    sorted / reversed (half of the cases)"""
+    if k % 2 or n < 2:
+        return None
+    return sorted(rng.sample(range(n), rng.randint(1, n - 1)))
 
 
 def model_cases(ctx, states, sample=None):
@@ -283,6 +319,7 @@ def model_cases(ctx, states, sample=None):
                     "allperms_upto": 3, "shuffles": 1, "fixed_orders": 1 + k % 3, "reencode_rebuilt": k % 7 == 0,
                     "log_mate": False, "mate": mate["nested"] if mate else None,
                     "edit_before_default": [None, None, "swap_taxa", "move_leaf"][(k // 5) % 4],
+                    "pre_taxa": pre_taxa(len(r["M"]), k, rng),
                     "mate_step": {"op": "encode", "su": COMBOS[(k // 2) % 4][0], "cb": COMBOS[(k // 2) % 4][1]}}
             cases.append(case)
     return cases
@@ -326,6 +363,7 @@ def random_cases(ctx, n):
                       "steps": steps_for(rng.randrange(24), rng), "allperms_upto": 0, "shuffles": 2,
                       "reencode_rebuilt": k % 3 == 0, "mate": mate,
                       "edit_before_default": rng.choice([None, None, "swap_taxa", "move_leaf"]),
+                      "pre_taxa": pre_taxa(len(M), rng.randrange(4), rng),
                       "mate_step": {"op": "encode", "su": rng.random() < 0.7, "cb": rng.random() < 0.7}})
     return cases
 
@@ -359,19 +397,18 @@ def account(ctx, driven):
 
 
 def check_machinery(ctx):
-    """C01.DriverPrecondition = the judged input is outside the domain the driver must stay in.  As the
-    first failing verdict of a trace it is a bug of this driver (exit 2); after another failing verdict
-    in the same trace it is a consequence of what the library did there and is dropped."""
+    """C01.InputInDomain = the judged input is outside the domain of the property (ill-formed tree,
+    leaves without distinct taxa of the namespace, ...).  The driver never builds such inputs, so on
+    a library that behaves it cannot occur; when it is the first failing verdict of a trace it is
+    reported like any other verdict (the library made the input leave the domain); after another
+    failing verdict in the same trace it is a consequence of that one and is dropped."""
     first = {}
     for v in ctx.verdicts:
         if v["tid"] not in first or v["step"] < first[v["tid"]]["step"] or \
-                (v["step"] == first[v["tid"]]["step"] and v["clause"] != "C01.DriverPrecondition"):
+                (v["step"] == first[v["tid"]]["step"] and v["clause"] != "C01.InputInDomain"):
             first[v["tid"]] = v
-    bad = [v for v in first.values() if v["clause"] == "C01.DriverPrecondition"]
-    if bad:
-        raise core.MachineryError("driver produced an input outside the judged domain: %s / %s, case %s"
-                                  % (bad[0]["class"], bad[0]["action"], core.dumps(ctx.cases[bad[0]["tid"]])[:500]))
-    ctx.verdicts[:] = [v for v in ctx.verdicts if v["clause"] != "C01.DriverPrecondition"]
+    keep = set(id(v) for v in first.values())
+    ctx.verdicts[:] = [v for v in ctx.verdicts if v["clause"] != "C01.InputInDomain" or id(v) in keep]
 
 
 def run(ctx):
@@ -401,7 +438,7 @@ def run(ctx):
     dom = ("all ordered trees with <= 7 nodes and <= 4 leaves" if q else "all ordered trees with <= 8 nodes and <= 5 leaves")
     ctx.rule = ("(tree, namespace) states of TLC's dump of MC_Bipartitions (%s x both rootings x every assignment of the listed leaf sets "
                 "(dense, without bit 0, with gaps) x namespaces with extra members below/between/above): %d of the %d states%s, each built as real "
-                "objects (namespace list order and trailing removed taxa varied), encoded under the 4 option combinations incl. repeated "
+                "objects (trailing removed taxa varied; namespace sorted / reversed / left, in half of the cases after a tree with an incomplete leaf set was encoded), encoded under the 4 option combinations incl. repeated "
                 "encodings and raw edits in between, rebuilt from several orderings of the encoding (all orderings up to 3 entries), paired "
                 "with another state on the same taxa, + %d random trees with 6-14 leaves with a redrawn / NNI / leaf-swapped / independent "
                 "partner; distinct_nontrivial = distinct (call, tree with >= 3 leaves, options | ordering | partner tree)"
